@@ -266,6 +266,8 @@ func GenProject(t *rapid.T, pf Profile) *Project {
 		// the files methods may live in: the controller's file, a sibling file, a file without any controller
 		files := []string{c.File, c.File, strings.TrimSuffix(c.File, ".go") + "_more.go", "handlers_" + fmt.Sprint(ci) + ".go"}
 		nm := rapid.IntRange(pf.MinMethods, pf.MaxMethods).Draw(t, "nMethods")
+		var lastSegs []string
+		lastVerbs := map[string]bool{}
 		for mi := 0; mi < nm; mi++ {
 			m := &Method{Name: fmt.Sprintf("%s%d", rapid.SampledFrom([]string{"Get", "List", "Create", "Update", "Remove", "Do"}).Draw(t, "mname"), opIdx)}
 			opIdx++
@@ -293,6 +295,25 @@ func GenProject(t *rapid.T, pf Profile) *Project {
 				}
 				segs = append(segs, rapid.SampledFrom(literalSegs).Draw(t, "seg"))
 			}
+			// the REST habit: several verbs on one path (GET/PUT/DELETE /items/{id}), each method free to
+			// write the template with its own slash noise
+			if mi > 0 && len(lastSegs) > 0 && rapid.IntRange(0, 2).Draw(t, "siblingVerb") == 0 {
+				var free []string
+				for _, v := range verbs {
+					if !lastVerbs[v] {
+						free = append(free, v)
+					}
+				}
+				if len(free) > 0 {
+					segs = append([]string(nil), lastSegs...)
+					m.Verb = rapid.SampledFrom(free).Draw(t, "siblingVerbPick")
+				}
+			}
+			if strings.Join(segs, "/") != strings.Join(lastSegs, "/") {
+				lastVerbs = map[string]bool{}
+			}
+			lastSegs = append([]string(nil), segs...)
+			lastVerbs[m.Verb] = true
 			route := "/" + strings.Join(segs, "/")
 			full := NormalisePath(c.Prefix(), route)
 			clash := false
